@@ -3657,6 +3657,9 @@ impl<'a> Parser<'a> {
         let local = self.parse_one_of_keywords(&[Keyword::LOCAL]).is_some();
         let global = self.parse_one_of_keywords(&[Keyword::GLOBAL]).is_some();
         let transient = self.parse_one_of_keywords(&[Keyword::TRANSIENT]).is_some();
+        if local && global {
+            return self.expected("either LOCAL or GLOBAL, not both", self.peek_token());
+        }
         let global: Option<bool> = if global {
             Some(true)
         } else if local {
@@ -3669,24 +3672,59 @@ impl<'a> Parser<'a> {
             .is_some();
         let persistent = dialect_of!(self is DuckDbDialect)
             && self.parse_one_of_keywords(&[Keyword::PERSISTENT]).is_some();
+        // A modifier that the object kind has no place for is an error: it must not be
+        // read and then dropped.
+        let all = [
+            ("OR REPLACE", or_replace),
+            ("OR ALTER", or_alter),
+            ("LOCAL / GLOBAL", global.is_some()),
+            ("TRANSIENT", transient),
+            ("TEMPORARY", temporary),
+            ("PERSISTENT", persistent),
+        ];
+        let only = |parser: &Parser, kind: &str, allowed: &[&str]| -> Result<(), ParserError> {
+            match all
+                .iter()
+                .find(|(name, given)| *given && !allowed.contains(name))
+            {
+                Some((name, _)) => parser_err!(
+                    format!("{name} is not supported in CREATE {kind}"),
+                    parser.peek_token().location
+                ),
+                None => Ok(()),
+            }
+        };
         if self.parse_keyword(Keyword::TABLE) {
+            only(
+                self,
+                "TABLE",
+                &["OR REPLACE", "LOCAL / GLOBAL", "TRANSIENT", "TEMPORARY"],
+            )?;
             self.parse_create_table(or_replace, temporary, global, transient)
         } else if self.parse_keyword(Keyword::MATERIALIZED) || self.parse_keyword(Keyword::VIEW) {
             self.prev_token();
+            only(self, "VIEW", &["OR REPLACE", "TEMPORARY"])?;
             self.parse_create_view(or_replace, temporary)
         } else if self.parse_keyword(Keyword::POLICY) {
+            only(self, "POLICY", &[])?;
             self.parse_create_policy()
         } else if self.parse_keyword(Keyword::EXTERNAL) {
+            only(self, "EXTERNAL TABLE", &["OR REPLACE"])?;
             self.parse_create_external_table(or_replace)
         } else if self.parse_keyword(Keyword::FUNCTION) {
+            only(self, "FUNCTION", &["OR REPLACE", "TEMPORARY"])?;
             self.parse_create_function(or_replace, temporary)
         } else if self.parse_keyword(Keyword::TRIGGER) {
+            only(self, "TRIGGER", &["OR REPLACE"])?;
             self.parse_create_trigger(or_replace, false)
         } else if self.parse_keywords(&[Keyword::CONSTRAINT, Keyword::TRIGGER]) {
+            only(self, "CONSTRAINT TRIGGER", &["OR REPLACE"])?;
             self.parse_create_trigger(or_replace, true)
         } else if self.parse_keyword(Keyword::MACRO) {
+            only(self, "MACRO", &["OR REPLACE", "TEMPORARY"])?;
             self.parse_create_macro(or_replace, temporary)
         } else if self.parse_keyword(Keyword::SECRET) {
+            only(self, "SECRET", &["OR REPLACE", "TEMPORARY", "PERSISTENT"])?;
             self.parse_create_secret(or_replace, temporary, persistent)
         } else if or_replace {
             self.expected(
@@ -3694,24 +3732,34 @@ impl<'a> Parser<'a> {
                 self.peek_token(),
             )
         } else if self.parse_keyword(Keyword::EXTENSION) {
+            only(self, "EXTENSION", &[])?;
             self.parse_create_extension()
         } else if self.parse_keyword(Keyword::INDEX) {
+            only(self, "INDEX", &[])?;
             self.parse_create_index(false)
         } else if self.parse_keywords(&[Keyword::UNIQUE, Keyword::INDEX]) {
+            only(self, "UNIQUE INDEX", &[])?;
             self.parse_create_index(true)
         } else if self.parse_keyword(Keyword::VIRTUAL) {
+            only(self, "VIRTUAL TABLE", &[])?;
             self.parse_create_virtual_table()
         } else if self.parse_keyword(Keyword::SCHEMA) {
+            only(self, "SCHEMA", &[])?;
             self.parse_create_schema()
         } else if self.parse_keyword(Keyword::DATABASE) {
+            only(self, "DATABASE", &[])?;
             self.parse_create_database()
         } else if self.parse_keyword(Keyword::ROLE) {
+            only(self, "ROLE", &[])?;
             self.parse_create_role()
         } else if self.parse_keyword(Keyword::SEQUENCE) {
+            only(self, "SEQUENCE", &["TEMPORARY"])?;
             self.parse_create_sequence(temporary)
         } else if self.parse_keyword(Keyword::TYPE) {
+            only(self, "TYPE", &[])?;
             self.parse_create_type()
         } else if self.parse_keyword(Keyword::PROCEDURE) {
+            only(self, "PROCEDURE", &["OR ALTER"])?;
             self.parse_create_procedure(or_alter)
         } else {
             self.expected("an object type after CREATE", self.peek_token())
